@@ -66,6 +66,14 @@ CLAIMED.update({
         design="DESIGN.md section 5, C06"),
 })
 
+CLAIMED.update({
+    "C18": dict(
+        text="Deductive proof (Verus) of the real csleep / load / store / strobe / asm statement generators against the contract of asm() proved in U-asm: csleep(n) is accepted exactly for 2..10 and emits instructions whose datasheet cycle counts sum to n, consisting only of NOP, STA/DEC DUMMY and adjacent PHA/PLA pairs, all marked protected; it resets the generator's belief about N/Z. load/store/strobe emit exactly one protected instruction with the right mnemonic (and for a strobe on a constant pointer the named address); an asm statement becomes one inline line with the declared size.",
+        note="Partial: 'executes exactly once in source order through control flow' is whole-generator semantics (C01); the optimiser's handling of protected lines is the C02 unit. DUMMY is assumed to be a zero-page char (A-dummy, feature atari2600). Cycle table from the MOS datasheet (A-isa). Callee contracts are those proved in U-asm.",
+        technique="contract-based deductive verification (Verus; callers checked against the callee contract proved in another unit; functions extracted mechanically from /repo)",
+        design="DESIGN.md section 5, C18"),
+})
+
 NOT_APPLICABLE = {
     "C11": "no contract within reach: the property is about the comment/splice scanner in cpp::process (str::split*/byte slicing without vstd specifications), pest WHITESPACE/COMMENT rules (generated parser) and a relation between two whole compilations",
 }
